@@ -296,6 +296,32 @@ func checkEntry(w *hc.W, e common.Entry) {
 		}
 	}
 
+	// (d2) two ESCs and a key are two key presses: the concatenation of (ESC ESC = Alt+Esc) and
+	// the key, or of Esc and (ESC key = Alt+key) - never a single event
+	if escSingle != nil {
+		for _, s := range singles {
+			seq := "\x1b\x1b" + s.seq
+			conflict := false
+			for k := range table {
+				if k != "\x1b" && (strings.HasPrefix(k, seq) || strings.HasPrefix(seq, k) || strings.HasPrefix(k, seq[1:]) || strings.HasPrefix(seq[1:], k)) {
+					conflict = true
+				}
+			}
+			if conflict {
+				continue
+			}
+			escEv := escSingle.evs[0]
+			a1, a2 := escEv, s.evs[0]
+			a1.Mod |= tcell.ModAlt
+			b1, b2 := escEv, s.evs[0]
+			b2.Mod |= tcell.ModAlt
+			evs, ok := one(seq)
+			if ok && !ri.EqEvs(evs, []ri.Ev{a1, a2}) && !ri.EqEvs(evs, []ri.Ev{b1, b2}) {
+				viol("esc-esc", seq, fmt.Sprintf("ESC ESC followed by %s decodes to %s, want %s or %s", q(s.seq), fmtEvs(evs), fmtEvs([]ri.Ev{a1, a2}), fmtEvs([]ri.Ev{b1, b2})))
+			}
+		}
+	}
+
 	// (e) concatenations decode to the concatenation of the events
 	sub := singles
 	for i, a := range singles {
